@@ -589,3 +589,10 @@ def sequential_cases(tier):
     out.append(("I.huge_from_str_radix 16 3 Z:1f Z:31 L:31 Z:4", "Err:2", "2^31+4 base-4 digits"))
     out.append(("U.huge_from_str_radix 8 1 Z:20 Z:31 L:31 Z:2", "Err:2", "2^32+4 binary digits"))
     return out
+
+
+def prebuild(root):
+    """translator: regenerate coq/Generated/ParseGen.v from /repo/src/buint/radix.rs, /repo/src/bint/radix.rs, /repo/src/bint/convert.rs
+    (the parsing code; proved equal to the hand-written model Model/Parse.v in Proofs/ParseGenTie*.v,
+    theorem C10_parse_rs_matches_model); the translator error is returned"""
+    return run_translator(root, "rs2v_parse.py", "C10")
